@@ -74,6 +74,18 @@ def cases(rng, tier):
                 fmt = rng.choice(fmts) if tier == "quick" else None
                 for f in ([fmt] if fmt else fmts):
                     out.append({"t": "cell", "cls": qn, "param": pn, "kind": kind, "fmt": f, "v": gen_value(rng, kind)})
+    # opaque kinds (nested messages, JSON objects): no Lean value model; real round-trip oracle only
+    from idpyoidc.message import Message
+    for qn, cls in classes().items():
+        for pn, spec in cls.c_param.items():
+            if pn == "*" or KIND.get(extract_msg.triple(spec), "other") != "other":
+                continue
+            vt = spec[0][0] if isinstance(spec[0], list) else spec[0]
+            if not (isinstance(vt, type) and (issubclass(vt, Message) or vt is dict)):
+                continue
+            for f in (["dict", "json", "jwt"] if tier != "quick" else [rng.choice(["dict", "json", "jwt"])]):
+                out.append({"t": "opq", "cls": qn, "param": pn, "fmt": f, "islist": isinstance(spec[0], list),
+                            "vals": [rng.choice(["Apt=5, 1 Main Street", "a&b", "x y+z", "é=中", "p%3Dq", "k=v&k2=v2"]) for _ in range(3)]})
     for _ in range(300 * reps):
         ps = []
         for _ in range(rng.randint(0, 4)):
@@ -88,7 +100,61 @@ def _canon(v):
     return v
 
 
+def _nested_value(c, cls):
+    from idpyoidc.message import Message
+    spec = cls.c_param[c["param"]]
+    vt = spec[0][0] if isinstance(spec[0], list) else spec[0]
+    if vt is dict:
+        v = {"k": c["vals"][0], "n": 1, "l": [c["vals"][1]]}
+    else:
+        names = [n for n, sp in vt.c_param.items() if sp[0] is str and sp[2] is None][:3] or ["x_a", "x_b", "x_c"]
+        v = vt(**{n: c["vals"][i % 3] for i, n in enumerate(names)})
+    return [v] if isinstance(spec[0], list) else v
+
+
+def _deep(x):
+    from idpyoidc.message import Message
+    if isinstance(x, Message):
+        return {k: _deep(v) for k, v in x.to_dict().items()}
+    if isinstance(x, dict):
+        return {k: _deep(v) for k, v in x.items()}
+    if isinstance(x, list):
+        return [_deep(v) for v in x]
+    return x
+
+
+def _impl_opq(c):
+    cls = classes()[c["cls"]]
+    try:
+        val = _nested_value(c, cls)
+        m = cls(**{c["param"]: val})
+    except Exception as e:
+        return {"r": "construct-exc", "cls": type(e).__name__}
+    if c["param"] not in m:
+        return {"r": "construct-exc", "cls": "dropped"}
+    try:
+        intended = _deep(val)
+    except Exception as e:
+        return {"r": "construct-exc", "cls": type(e).__name__}
+    try:
+        m.lax = True
+        if c["fmt"] == "jwt":
+            kj = keyjar()
+            keys = kj.get_signing_key("oct", "")
+            wire = m.to_jwt(key=keys, algorithm="HS256")
+            back = cls().from_jwt(wire, keyjar=kj, key=keys)
+        elif c["fmt"] == "json":
+            back = cls().from_json(m.to_json())
+        else:
+            back = cls().from_dict(m.to_dict())
+    except Exception as e:
+        return {"r": "exc", "cls": type(e).__name__}
+    return {"r": "ok", "intended": intended, "got": _deep(back.get(c["param"], "<absent>"))}
+
+
 def impl(c):
+    if c["t"] == "opq":
+        return _impl_opq(c)
     if c["t"] == "qs":
         pairs = [(k.encode(), v.encode()) for k, v in c["pairs"]]
         qs = urlencode(pairs)
@@ -168,6 +234,8 @@ def dec_val(w):
 
 
 def model_lines(c, obs):
+    if c["t"] == "opq":
+        return []
     if c["t"] == "qs":
         flat = []
         for k, v in c["pairs"]:
@@ -182,6 +250,8 @@ def model_lines(c, obs):
 
 
 def compare(c, obs, outs):
+    if c["t"] == "opq":
+        return []
     if c["t"] == "qs":
         f = outs[0].split("\t")
         qs = dec_str(f[0])
@@ -233,6 +303,10 @@ def compare(c, obs, outs):
 
 def oracle(c, obs):
     """m == deser(ser(m)) up to the textual rendering allowance, stated on the real objects"""
+    if c["t"] == "opq":
+        if obs["r"] == "ok" and obs["got"] != obs["intended"]:
+            return [{"cls": "nested-roundtrip-differs", "fmt": c["fmt"], "param": c["param"]}]
+        return []
     if c["t"] != "cell":
         if c["t"] == "qs":
             want = [[k, v] for k, v in c["pairs"] if (v != "" or c["kb"]) and not (k == "" and v == "" )]
@@ -265,19 +339,20 @@ def oracle(c, obs):
 
 
 def known_key(c, v, known):
-    for f in known:
-        if all(v.get(k) == val for k, val in f["match"].items()):
-            return f["key"]
-    return None
+    return common.known_key(c, v, known)
 
 
 def classify(c, obs):
+    if c["t"] == "opq":
+        return f"opaque:{c['fmt']}:{obs['r']}"
     if c["t"] == "cell":
         return f"cell:{c['kind']}:{c['fmt']}:{obs['r']}"
     return c["t"]
 
 
 def nontrivial(c, obs):
+    if c["t"] == "opq":
+        return obs["r"] == "ok"
     s = json.dumps(c.get("v", c.get("pairs", c.get("txt"))), ensure_ascii=False)
     return any(ch in s for ch in " +&=%#'é中") or (isinstance(c.get("v"), list) and len(c["v"]) > 1)
 
